@@ -1,7 +1,7 @@
 #!/bin/sh
 # tools/seed_confirm.sh <id>: confirm a sub-agent's seeded change in its worktree /tmp/wt_<id> from its _seed/patch.diff:
 # tests pass with it, demo fails with it and passes without. (No git stash: the stash is shared by all worktrees.)
-W=/tmp/wt_$1
+W=${SEED_WT:-/tmp/wt_$1}
 cd $W || exit 9
 [ -s $W/_seed/patch.diff ] || git diff -- include src > $W/_seed/patch.diff
 git checkout -- include src
